@@ -194,7 +194,20 @@ pub fn limb_case(t: &mut Tape, c: &mut Case) -> CaseResult {
 
 fn hex_malform(t: &mut Tape, s: &str) -> (String, &'static str) {
     let mut b = s.as_bytes().to_vec();
-    let kind = match t.below(7) {
+    let kind = match t.below(8) {
+        7 => {
+            // a non-ASCII character in place of two / three digits (the byte length is kept): its
+            // UTF-8 bytes are 0xC2..=0xEF followed by 0x80..=0xBF, which a decoder that masks or
+            // truncates the byte value could take for digits
+            let three = b.len() >= 3 && t.bool();
+            let cp = if three { t.range(0x800, 0xFFFF) as u32 } else { t.range(0x80, 0x7FF) as u32 };
+            let ch = char::from_u32(cp).unwrap_or('\u{00f1}');
+            let mut buf = [0u8; 4];
+            let enc = ch.encode_utf8(&mut buf).as_bytes().to_vec();
+            let i = t.index(b.len() + 1 - enc.len());
+            b.splice(i..i + enc.len(), enc);
+            "non-ASCII character"
+        }
         0 => {
             b.truncate(b.len() - 2);
             "two characters short"
